@@ -66,15 +66,20 @@ def r02_1(chk, P, D):
 
 # ---------------------------------------------------------------------------------------------------------
 def site_key(P, F, s, sk, seen):
+    """stable name of an R02.2 site.  Proven sites are numbered per anchor; the anchor alone (function + accessed object /
+    divisor / allocation size, locals expanded by their definitions) is what the assumption table names, so that an edit
+    elsewhere in the expression or a new site in the function does not orphan an assumption"""
     e = s['e']
-    if s['kind'] == 'div':
-        canon = common.canon_x(F, e, sk, depth=2)
+    nd = F.ex[e]
+    if s['kind'] == 'sub':
+        anchor = 'sub:' + sk.canon(F, F.strip_casts(nd['c'][0]))
+    elif s['kind'] == 'div':
+        anchor = 'div:' + common.canon_x(F, nd['c'][1], sk, depth=2)
     else:
-        canon = common.canon_x(F, e, sk, depth=2)
-    base = f'{s["kind"]}:{canon}'
-    n = seen.get(base, 0)
-    seen[base] = n + 1
-    return base if n == 0 else f'{base}#{n}'
+        anchor = f'{s["kind"]}:' + common.canon_x(F, e, sk, depth=2)
+    n = seen.get(anchor, 0)
+    seen[anchor] = n + 1
+    return anchor, (anchor if n == 0 else f'{anchor}#{n}')
 
 
 def r02_2(chk, P, D):
@@ -94,13 +99,13 @@ def r02_2(chk, P, D):
         F = P.fn[k]
         seen = {}
         for s in sorted(R.sites, key=lambda s: (F.ex[s['e']].get('loc') or [0, 0], s['e'])):
-            cons = site_key(P, F, s, sk, seen)
+            anchor, cons = site_key(P, F, s, sk, seen)
             if s['ok']:
                 chk.ob('R02.2', k, cons, True, s['where'], s['bound'])
                 continue
-            a = T.ASSUME.get((k, cons))
+            a = T.ASSUME.get((k, anchor))
             if a is not None:
-                used.add((k, cons))
+                used.add((k, anchor))
                 chk.assumed('R02.2', k, cons, s['where'], f'{s["bound"]}; {a}')
             else:
                 chk.ob('R02.2', k, cons, False, s['where'], f'{s["text"][:100]}: {s["bound"]} -- not provable and not a listed assumption')
